@@ -212,9 +212,21 @@ P("C15", "translation_validation", "typed/platform wrappers vs wrapped concrete 
   TV_NOTE + "Only the Unix host configuration of native/platform can be built here.",
   rule="small Windows and Unix domains x 10 arguments x both variants; non-trivial = >= 2 components", design_ref="§5 C15")
 
-P("C16", "translation_validation", "Lean model vs code differential + clause oracle",
-  "with_encoding(_checked) in all four directions against the model; clauses on the implementation.",
-  TV_NOTE + "Known finding K4 set aside by class predicate.",
+P("C16", "proof", "Lean 4 theorems (same-encoding clauses; Windows->Unix structure preservation for prefix-free paths) + model/code correspondence; other clauses by oracle (known finding K4)",
+  "Proved in Lean: converting to the same encoding returns the same bytes (conv_same_label) and the checked variant "
+  "returns them exactly when the path is valid, InvalidFilename otherwise (conv_checked_same_label); for every "
+  "prefix-free (hence non-verbatim) Windows byte string the Unix conversion parses to exactly the same sequence of "
+  "component kinds and names (conv_w2u_prefix_free — no portability hypothesis is needed in this direction because "
+  "every Windows name is `/`-free), using the fact that a string not starting with two separators or `X:` has no "
+  "prefix (parsePrefix_none_of_pfxStart) and the render lemma for Unix.",
+  "Partial: the Unix->Windows direction and the round trip (need the append lemma for prefix-free Windows buffers plus "
+  "the both-sides-valid hypothesis), 'a prefix is dropped / rooted or non-disk-prefixed becomes rooted', and the checked "
+  "clauses are NOT proved; the checked clause is false at known finding K4 (conv_checked_K4_witness: a Unix name "
+  "containing `\\` becomes two Windows components). The oracle decides all of them on every run in all four "
+  "directions (forbidden-byte alphabet, prefix seeds), K4 set aside by a narrow class predicate. Typed / platform / "
+  "UTF-8 shortcuts: oracle. Model=code by differential testing.",
+  theorems=["TP.C16.conv_same_label", "TP.C16.conv_checked_same_label", "TP.C16.conv_w2u_prefix_free",
+            "TP.C16.parsePrefix_none_of_pfxStart", "TP.C16.win_comps_pf", "TP.C16.conv_checked_K4_witness"],
   rule=NONTRIV + "strings over {\\ / : . a}, forbidden-byte alphabet, prefix seeds; non-trivial = prefix or >= 2 components", design_ref="§5 C16")
 
 P("C17", "proof", "tables regenerated from the source + Lean 4 theorems (decide over the whole tables, validity lemmas) + correspondence",
